@@ -13,7 +13,8 @@ ASSUMPTIONS = [
     "no reordering of file writes)",
     "observation points are hook boundaries (entry/exit of protocol, setup, execute, teardown, process_report, log_end, unconfigure), "
     "before/after every SQLAlchemy commit of pytask.DatabaseSession, and one point inside a task body after its first product write",
-    "no edits between the kill and the recovery builds; task bodies are deterministic functions of their declared inputs and module text",
+    "no edits between the kill and the recovery builds (with such an edit the property fails: finding F20, whose witness is replayed on every "
+    "run and recorded under F20_witness); task bodies are deterministic functions of their declared inputs and module text",
     "persist / skip markers are not generated (a persisted or skipped task is outside 'what a from-scratch build would give', cf. C02)",
     "memo file classes: empty, cut inside a key, cut inside a value, missing closing brace, non-UTF-8 bytes, JSON of the wrong shape",
     "the schedule of the killed build is the one observed at protocol entries; theorems quantify over all legal schedules and all k",
